@@ -796,7 +796,7 @@ func (w *World) verifyFunc(con *Contract) (fr *FuncResult) {
 	for _, l := range con.Lets {
 		e.lets[l.Name] = env.eval(l.Expr)
 	}
-	for _, r := range con.Requires {
+	for _, r := range append(append([]Clause{}, con.Requires...), con.Assumes...) {
 		g, facts := e.evalClause(r.Expr, env)
 		s.pc = append(s.pc, facts...)
 		s.assume("%s", g)
@@ -882,6 +882,7 @@ func (w *World) verifyLemma(lm *Lemma) (fr *FuncResult) {
 	e.entry = s.clone()
 	e.entryVars = vars
 	nAssert := 0
+	called := false
 	for _, st := range lm.Stmts {
 		env := &SpecEnv{e: e, cur: s, old: e.entry, vars: vars, pkg: lm.Pkg, bound: map[string]bool{}}
 		switch st.Kind {
@@ -895,7 +896,9 @@ func (w *World) verifyLemma(lm *Lemma) (fr *FuncResult) {
 			g, facts := e.evalClause(st.Expr, env)
 			s.pc = append(s.pc, facts...)
 			s.assume("%s", g)
-			e.entry = s.clone()
+			if !called {
+				e.entry = s.clone() // assumptions before the first call are the lemma's precondition: old() refers to that state
+			}
 		case "assert":
 			e.prove("lemma", fmt.Sprint(nAssert), st.Tags, s, st.Expr, env, "assert "+st.Src)
 			nAssert++
@@ -903,6 +906,7 @@ func (w *World) verifyLemma(lm *Lemma) (fr *FuncResult) {
 			s.pc = append(s.pc, facts...)
 			s.assume("%s", g)
 		case "call":
+			called = true
 			con, args := e.lemmaCallee(st, env)
 			var names = st.Names
 			e.applyContract(s, con, args, func(s2 *State, v Val) {
